@@ -69,6 +69,12 @@ impl<'s, const M: usize> Exec<'s, M> {
         let (out, b) = self.classify(fallible, r);
         self.bump = b;
         self.limit = None;
+        if self.opts.huge_limit {
+            if let Some(b) = self.bump.as_ref() {
+                b.set_allocation_limit(Some(usize::MAX));
+                self.limit = Some(usize::MAX);
+            }
+        }
         self.post(None);
         if self.viol.is_empty() && out == Out::Ok {
             let c = cap.unwrap_or(0);
